@@ -62,8 +62,11 @@ theorem armSell_scaled {f : Rat} (hf : 0 < f) {t t' : Tracker} (ht : TrackerScal
       rw [perShareAcb_scaled hf]
       cases hp : perShareAcb pre with
       | none =>
-        simp only [Option.map_none, ArmResScaled]
-        exact ⟨by simp [scaleStatus], rfl, by simp [sflOptScaled], rfl⟩
+        simp only [Option.map_none]
+        cases hsp : spec.isSome
+        · simp only [Bool.false_eq_true, if_false, ArmResScaled]
+          exact ⟨by simp [scaleStatus], rfl, by simp [sflOptScaled], rfl⟩
+        · simp [ArmResScaled]
       | some aps =>
         simp only [Option.map_some]
         have epay : px / f * (sh * f) * rate = px * sh * rate := by grind
